@@ -95,8 +95,10 @@ package dotenv
 //@ func expandVariables$1
 //@   except nilrecv#1, precondition#1 : undischarged on the reference tree (engine limit or missing callee contract), not claimed
 //@   nopanic[C01,C18]
-//@?  ensures[C18] lookupOk(lookupFn, k) ==> result.1 && result.0 == lookupVal(lookupFn, k)
-//@?  ensures[C18] !lookupOk(lookupFn, k) ==> (result.1 <==> has(envMap, k)) && (has(envMap, k) ==> result.0 == envMap[k])
+// dyn1.0 / dyn1.1: the two results of the (only) call of the lookup function in this closure.
+// "lookup function first, earlier lines of the same file second":
+//@   ensures[C18,C16] dyn1.1 ==> result.1 && result.0 == dyn1.0
+//@   ensures[C18,C16] !dyn1.1 ==> (result.1 <==> has(envMap, k)) && (has(envMap, k) ==> result.0 == envMap[k])
 //@   requires lookupFn != nil
 //@   ensures[C18] !result.1 ==> !has(envMap, k)
 //@   ensures[C18] has(envMap, k) ==> result.1
